@@ -13,15 +13,25 @@
 (*   unjustified_exec  (C03) an executor run of a node that completed a    *)
 (*                 run before although every dependency value it read in   *)
 (*                 that run is still the from-scratch value                *)
+(*   external inputs: an external node's value is the outside-world value  *)
+(*                 its executor sampled on first demand or in the last     *)
+(*                 committed refresh (external_value); a refresh re-samples *)
+(*                 EVERY external node sampled before, the new samples     *)
+(*                 take effect together at the commit                      *)
+(*                 (refresh_skipped_external, then query_value);           *)
+(*                 external executors run only on first demand or refresh  *)
 (* Events (same vocabulary as EngineObsTrace): prog, begin, set, commit,   *)
-(* query, enter, exec, reset; everything else is consumed unjudged.        *)
+(* world, refresh_start, refresh, query, enter, exec, reset; everything    *)
+(* else is consumed unjudged.                                              *)
 (***************************************************************************)
 EXTENDS Program, TLC, Json, IOUtils
 
 Rec == ndJsonDeserialize(IOEnv.TRACE)
 
-VARIABLES l, done, prog, inputs, pend, ran, running, viol, stats, lastReads
-vars == <<l, done, prog, inputs, pend, ran, running, viol, stats, lastReads>>
+VARIABLES l, done, prog, inputs, pend, ran, running, viol, stats, lastReads,
+          world,       \* node -> outside-world value (external nodes)
+          refreshing   \* between refresh_start and refresh
+vars == <<l, done, prog, inputs, pend, ran, running, viol, stats, lastReads, world, refreshing>>
 
 Ev == Rec[l]
 Is(e) == l <= Len(Rec) /\ Ev.e = e
@@ -34,6 +44,7 @@ EmptyProg == [m |-> 1, nodes |-> <<>>]
 Init == /\ l = 1 /\ done = FALSE /\ prog = EmptyProg /\ inputs = <<>> /\ pend = <<>>
         /\ ran = {} /\ running = {} /\ viol = <<>> /\ lastReads = <<>>
         /\ stats = [queries |-> 0, execs |-> 0, commits |-> 0, runs |-> 0]
+        /\ world = <<>> /\ refreshing = FALSE
 
 (* from-scratch value of one node, evaluated on demand *)
 RECURSIVE NodeVal(_)
@@ -54,32 +65,33 @@ StartRun ==
     /\ ran' = {} /\ running' = {}
     /\ lastReads' = [n \in 1..Len(Ev.prog.nodes) |-> [has |-> FALSE, reads |-> <<>>]]
     /\ stats' = [stats EXCEPT !.runs = @ + 1]
+    /\ world' = [n \in 1..Len(Ev.prog.nodes) |-> 0] /\ refreshing' = FALSE
     /\ UNCHANGED viol /\ Consume
 
 TBegin == Is("begin") /\ pend' = [n \in DOMAIN pend |-> None]
-          /\ UNCHANGED <<prog, inputs, ran, running, viol, stats, lastReads>> /\ Consume
+          /\ UNCHANGED <<prog, inputs, ran, running, viol, stats, lastReads, world, refreshing>> /\ Consume
 TSet == Is("set") /\ pend' = [pend EXCEPT ![Ev.n] = Ev.v]
-        /\ UNCHANGED <<prog, inputs, ran, running, viol, stats, lastReads>> /\ Consume
+        /\ UNCHANGED <<prog, inputs, ran, running, viol, stats, lastReads, world, refreshing>> /\ Consume
 TCommit ==
     /\ Is("commit")
     /\ inputs' = [n \in DOMAIN inputs |-> IF pend[n] # None THEN pend[n] ELSE inputs[n]]
     /\ pend' = [n \in DOMAIN pend |-> None]
     /\ ran' = {}
     /\ stats' = [stats EXCEPT !.commits = @ + 1]
-    /\ UNCHANGED <<prog, running, viol, lastReads>> /\ Consume
+    /\ UNCHANGED <<prog, running, viol, lastReads, world, refreshing>> /\ Consume
 TQuery ==
     /\ Is("query")
     /\ LET want == NodeVal(Ev.n) IN
        viol' = IF Ev.v # want THEN Append(viol, V("query_value", Ev.n, Ev.v, want)) ELSE viol
     /\ stats' = [stats EXCEPT !.queries = @ + 1]
-    /\ UNCHANGED <<prog, inputs, pend, ran, running, lastReads>> /\ Consume
+    /\ UNCHANGED <<prog, inputs, pend, ran, running, lastReads, world, refreshing>> /\ Consume
 TEnter ==
     /\ Is("enter")
     /\ viol' = IF Ev.n \in running THEN Append(viol, V("overlap", Ev.n, 0, 0)) ELSE viol
     /\ running' = running \cup {Ev.n}
-    /\ UNCHANGED <<prog, inputs, pend, ran, stats, lastReads>> /\ Consume
+    /\ UNCHANGED <<prog, inputs, pend, ran, stats, lastReads, world, refreshing>> /\ Consume
 TExec ==
-    /\ Is("exec")
+    /\ Is("exec") /\ prog.nodes[Ev.n].kind # "Ex"
     /\ running' = running \ {Ev.n}
     /\ LET lr == lastReads[Ev.n]
            \* every value read by the previous completed run is still the from-scratch value
@@ -89,25 +101,54 @@ TExec ==
     /\ lastReads' = IF Ev.ok THEN [lastReads EXCEPT ![Ev.n] = [has |-> TRUE, reads |-> Ev.reads]] ELSE lastReads
     /\ ran' = IF Ev.ok THEN ran \cup {Ev.n} ELSE ran
     /\ stats' = [stats EXCEPT !.execs = @ + 1]
-    /\ UNCHANGED <<prog, inputs, pend>> /\ Consume
+    /\ UNCHANGED <<prog, inputs, pend, world, refreshing>> /\ Consume
+(* the executor of an external node samples the outside world: on first demand the sample is the   *)
+(* node's value at once, in a refresh it becomes the value at the commit of the session            *)
+TExecExternal ==
+    /\ Is("exec") /\ prog.nodes[Ev.n].kind = "Ex"
+    /\ running' = running \ {Ev.n}
+    /\ LET n == Ev.n
+           wrong == IF Ev.out # world[n] THEN Append(viol, V("external_value", n, Ev.out, world[n])) ELSE viol
+       IN IF refreshing
+          THEN /\ pend' = [pend EXCEPT ![n] = Ev.out] /\ inputs' = inputs
+               /\ viol' = IF inputs[n] = None THEN Append(viol, V("refresh_of_unsampled_external", n, 0, 0)) ELSE wrong
+          ELSE /\ inputs' = [inputs EXCEPT ![n] = Ev.out] /\ pend' = pend
+               /\ viol' = IF inputs[n] # None THEN Append(viol, V("external_rerun_without_refresh", n, 0, 0)) ELSE wrong
+    /\ stats' = [stats EXCEPT !.execs = @ + 1]
+    /\ UNCHANGED <<prog, ran, lastReads, world, refreshing>> /\ Consume
+TWorld == Is("world") /\ world' = [world EXCEPT ![Ev.n] = Ev.v]
+          /\ UNCHANGED <<prog, inputs, pend, ran, running, viol, stats, lastReads, refreshing>> /\ Consume
+TRefreshStart == Is("refresh_start") /\ refreshing' = TRUE
+          /\ UNCHANGED <<prog, inputs, pend, ran, running, viol, stats, lastReads, world>> /\ Consume
+(* refresh() has returned: every external node sampled before has been sampled again; one that was  *)
+(* skipped is reported once, and is expected to show the outside world's value all the same         *)
+TRefresh ==
+    /\ Is("refresh") /\ refreshing' = FALSE
+    /\ LET missed == {n \in DOMAIN inputs : prog.nodes[n].kind = "Ex" /\ inputs[n] # None /\ pend[n] = None}
+       IN /\ viol' = IF missed # {} THEN Append(viol, V("refresh_skipped_external", CHOOSE n \in missed : TRUE, Cardinality(missed), 0))
+                                    ELSE viol
+          /\ pend' = [n \in DOMAIN pend |-> IF n \in missed THEN world[n] ELSE pend[n]]
+    /\ UNCHANGED <<prog, inputs, ran, running, stats, lastReads, world>> /\ Consume
 THang ==
     /\ Is("hang")
     /\ viol' = Append(viol, V("no_progress", 0, 0, 0))
-    /\ UNCHANGED <<prog, inputs, pend, ran, running, stats, lastReads>> /\ Consume
-TReset == Is("reset") /\ ran' = {} /\ running' = {}
-          /\ UNCHANGED <<prog, inputs, pend, viol, stats, lastReads>> /\ Consume
+    /\ UNCHANGED <<prog, inputs, pend, ran, running, stats, lastReads, world, refreshing>> /\ Consume
+TReset == Is("reset") /\ ran' = {} /\ running' = {} /\ refreshing' = FALSE
+          /\ UNCHANGED <<prog, inputs, pend, viol, stats, lastReads, world>> /\ Consume
 TOther ==
     /\ l <= Len(Rec)
-    /\ Ev.e \notin {"prog", "begin", "set", "commit", "query", "enter", "exec", "hang", "reset"}
-    /\ UNCHANGED <<prog, inputs, pend, ran, running, viol, stats, lastReads>> /\ Consume
+    /\ Ev.e \notin {"prog", "begin", "set", "commit", "query", "enter", "exec", "hang", "reset",
+                    "world", "refresh_start", "refresh"}
+    /\ UNCHANGED <<prog, inputs, pend, ran, running, viol, stats, lastReads, world, refreshing>> /\ Consume
 
 Finish ==
     /\ l = Len(Rec) + 1 /\ ~done
     /\ JsonSerialize(IOEnv.OUT, [events |-> Len(Rec), stats |-> stats, viol |-> viol])
     /\ done' = TRUE
-    /\ UNCHANGED <<l, prog, inputs, pend, ran, running, viol, stats, lastReads>>
+    /\ UNCHANGED <<l, prog, inputs, pend, ran, running, viol, stats, lastReads, world, refreshing>>
 
-Next == StartRun \/ TBegin \/ TSet \/ TCommit \/ TQuery \/ TEnter \/ TExec \/ THang \/ TReset \/ TOther \/ Finish
+Next == StartRun \/ TBegin \/ TSet \/ TCommit \/ TQuery \/ TEnter \/ TExec \/ TExecExternal \/ TWorld
+        \/ TRefreshStart \/ TRefresh \/ THang \/ TReset \/ TOther \/ Finish
 Spec == Init /\ [][Next]_vars
 Accepted ==
     LET d == TLCGet("stats").diameter IN
